@@ -417,6 +417,38 @@ def one_run(mon, rng, world, per_node, desc, batch, quick):
                             "interleaving": run.net.interleaving_id()})
 
 
+def systematic(mon, rng, depth, shard, nshard):
+    """systematic schedules: on two small two-node scenarios, EVERY choice sequence of length `depth` over the enabled
+    actions (accept / read / write / timer step) is executed from scratch as the start of the run, then the run is drained"""
+    import itertools
+    shapes = [(2, [6, 4]), (0, [3]), (3, [12, 14])]
+    for (trunk, forks) in shapes:
+        world, tips = make_forest(rng, trunk, forks, tx_prob=0.2)
+        per_node = [[tips[0]], [tips[-1] if len(tips) > 1 else world.gid]]
+        idx = 0
+        for prefix in itertools.product(range(4), repeat=depth):
+            idx += 1
+            if idx % nshard != shard:
+                continue
+            w = {"desc": {"kind": "systematic", "trunk": trunk, "forks": forks, "nodes": 2}, "topology": "two-way", "schedule": "systematic",
+                 "batch": 3, "prefix": list(prefix), "blocks": gen.blocks_hex(world, world.chain.order[1:]),
+                 "tips_per_node": [[t.hex() for t in tips_] for tips_ in per_node]}
+            run = Run(mon, world, per_node, TOPOLOGIES[2]["two-way"], random.Random(7), 3, "systematic", w)
+            for choice in prefix:
+                acts = run.net.enabled(timers=True)
+                act = acts[choice % len(acts)]
+                if act[0] == "step":
+                    run.net.clock.t += 61
+                run.net.run_action(act)
+            rounds = run.drain(sum(forks) + trunk)
+            run.check_escaped("systematic schedule")
+            run.verdict_sync(rounds)
+            run.relay_verdict()
+            mon.c["runs"] += 1
+            mon.c["systematic_runs"] = mon.c.get("systematic_runs", 0) + 1
+            mon.digests.add(run.net.interleaving_id())
+
+
 def run_shard(spec):
     env.boot()
     mon = Monitor()
@@ -457,6 +489,7 @@ def run_shard(spec):
                     pn = list(per_node)
                     rng.shuffle(pn)
                     one_run(mon, rng, world, pn, desc, batch, quick)
+            systematic(mon, rng, 4 if quick else 6, spec["shard"], NSHARD)
     res = {"evaluations": mon.c["runs"], "digests": sorted(mon.digests), "violations": mon.viol, "counters": mon.c,
            "samples": mon.samples}
     res["counters"]["rounds_histogram"] = {str(k): v for k, v in sorted(mon.rounds_hist.items())}
@@ -478,6 +511,7 @@ def finalize(m, tier):
                    ("extra_block_relays", c.get("extra_block_relays", 0), 50),
                    ("reorganisations_by_sync", c.get("reorganisations_by_sync", 0), 50),
                    ("relay_calls_recorded", c.get("relay_calls_recorded", 0), 300),
-                   ("runs_with_all_nodes_on_one_host", c.get("runs_with_all_nodes_on_one_host", 0), 60)],
+                   ("runs_with_all_nodes_on_one_host", c.get("runs_with_all_nodes_on_one_host", 0), 60),
+                   ("systematic_runs", c.get("systematic_runs", 0), 3 * 4 ** 4)],
         "extra": {"bounded_restatement_R_base": R_BASE},
     }
